@@ -45,6 +45,75 @@ fn result_mapping(r: &anyhow::Result<Mapping>) -> J {
     }
 }
 
+/// A rendered value as plain YAML (strings of either kind become YAML strings).
+fn value_to_yaml(v: &Value) -> Result<serde_yaml::Value, String> {
+    use serde_yaml::Value as Y;
+    Ok(match v {
+        Value::Null => Y::Null,
+        Value::Bool(b) => Y::Bool(*b),
+        Value::Number(n) => Y::Number(n.clone()),
+        Value::String(s) | Value::Literal(s) => Y::String(s.clone()),
+        Value::Sequence(l) => Y::Sequence(l.iter().map(value_to_yaml).collect::<Result<Vec<_>, _>>()?),
+        Value::ValueList(_) => return Err("layer list".into()),
+        Value::Mapping(m) => {
+            let mut out = serde_yaml::Mapping::new();
+            for (k, x) in m {
+                out.insert(value_to_yaml(k)?, value_to_yaml(x)?);
+            }
+            Y::Mapping(out)
+        }
+    })
+}
+
+fn render_json(mut v: Value) -> J {
+    match v.render_with_self() {
+        Ok(()) => json!({"ok": value_to_json(&v)}),
+        Err(e) => err_json(&e),
+    }
+}
+
+/// `edit` = {"path": [segments], "value": protocol value}: the value at `path` of the rendered mapping is replaced
+/// through `Value::get_mut`; `inplace` renders that very object again, `fresh` renders the same data rebuilt from YAML.
+fn edit_and_render(rendered: &Mapping, e: &J) -> J {
+    let mut v = Value::Mapping(rendered.clone());
+    let path: Vec<String> = e.get("path").and_then(J::as_array).map(|a| a.iter().filter_map(|x| x.as_str().map(str::to_string)).collect()).unwrap_or_default();
+    let newv = match e.get("value").map(yaml_of_json) {
+        Some(Ok(y)) => {
+            // converted by the parsing entry point, wrapped in a one-entry mapping
+            let mut w = serde_yaml::Mapping::new();
+            w.insert(serde_yaml::Value::String("v".into()), y);
+            match verif::mapping_try_from_yaml(w) {
+                Ok(mm) => match mm.get(&Value::from("v")) {
+                    Some(x) => x.clone(),
+                    None => return json!({"bad": "conversion lost the value"}),
+                },
+                Err(err) => return json!({"bad": format!("{err}")}),
+            }
+        }
+        _ => return json!({"bad": "no value"}),
+    };
+    {
+        let mut cur: &mut Value = &mut v;
+        for seg in &path {
+            cur = match cur.get_mut(&Value::from(seg.as_str())) {
+                Ok(Some(x)) => x,
+                _ => return json!({"bad": "path not found"}),
+            };
+        }
+        *cur = newv;
+    }
+    let fresh = match value_to_yaml(&v) {
+        Ok(serde_yaml::Value::Mapping(m)) => match verif::mapping_try_from_yaml(m) {
+            Ok(mm) => render_json(Value::Mapping(mm)),
+            Err(err) => json!({"bad": format!("{err}")}),
+        },
+        Ok(_) => json!({"bad": "not a mapping"}),
+        Err(err) => json!({"bad": err}),
+    };
+    let inplace = render_json(v);
+    json!({"inplace": inplace, "fresh": fresh})
+}
+
 pub fn run(req: &mut J) -> Result<J, String> {
     let op = req.get("op").and_then(J::as_str).ok_or("missing op")?.to_string();
     match op.as_str() {
@@ -115,7 +184,13 @@ pub fn run(req: &mut J) -> Result<J, String> {
                 }
                 Err(_) => J::Null,
             };
-            Ok(json!({"merged": result_mapping(&merged), "rendered": result_mapping(&rendered), "rerender": rerender}))
+            // optional (C07): edit the RENDERED parameters in place through the public mutable accessors
+            // (Value::get_mut), render them again, and compare with the same edited data built from scratch
+            let edit = match (&rendered, req.get("edit")) {
+                (Ok(m), Some(e)) => edit_and_render(m, e),
+                _ => J::Null,
+            };
+            Ok(json!({"merged": result_mapping(&merged), "rendered": result_mapping(&rendered), "rerender": rerender, "edit": edit}))
         }
         "abs" => {
             let cls = req.get("cls").and_then(J::as_str).ok_or("missing cls")?;
